@@ -70,7 +70,7 @@ func sshMutate(r Rand, msg []byte, _ bool) []byte {
 	case 5: // exactly the prefix
 		out = []byte("SSH-")
 	case 6: // SSH without the dash, padded to 4
-		out = cat([]byte("SSH"), []byte{pick[byte](r, "ssh.dash", 0, '_', '1', 0x2d ^ 0x80)}, out[min(4, len(out)):])
+		out = cat([]byte("SSH"), []byte{pick[byte](r, "ssh.dash", 0, '_', '1', 0x2d^0x80)}, out[min(4, len(out)):])
 	default:
 		out = GenericMutate(r, msg)
 	}
@@ -177,8 +177,11 @@ func xmppMutate(r Rand, msg []byte, _ bool) []byte {
 // regexp
 
 // The default regexp configuration uses the matcher's default count (4 bytes).
+// Note: the matcher runs its pattern through caddy's placeholder replacer at
+// provision time, which EATS regexp quantifiers in braces ("[a-z]{2}" becomes
+// "[a-z]"), so the patterns used here avoid braces.
 const (
-	RegexpDefaultPattern = "^L4[a-z0-9]{2}$"
+	RegexpDefaultPattern = "^L4[a-z0-9][a-z0-9]$"
 )
 
 func protoRegexp() *Proto {
@@ -188,8 +191,9 @@ func protoRegexp() *Proto {
 			return provisionAll(ctx, []NamedMatcher{
 				{Name: "regexp{pattern=" + RegexpDefaultPattern + "}", M: &l4regexp.MatchRegexp{Pattern: RegexpDefaultPattern}, MatchesValid: true},
 				{Name: "regexp{pattern=^L4,count=2}", M: &l4regexp.MatchRegexp{Pattern: "^L4", Count: 2}, MatchesValid: true},
-				{Name: "regexp{pattern=^L4[a-z0-9]{2}\\r?\\n,count=6}", M: &l4regexp.MatchRegexp{Pattern: "^L4[a-z0-9]{2}\\r?\\n", Count: 6}},
-				{Name: "regexp{pattern=\\x00{3}$,count=16}", M: &l4regexp.MatchRegexp{Pattern: "\\x00{3}$", Count: 16}},
+				{Name: "regexp{pattern=^L4[a-z0-9][a-z0-9]\\r?\\n,count=6}", M: &l4regexp.MatchRegexp{Pattern: "^L4[a-z0-9][a-z0-9]\\r?\\n", Count: 6}},
+				{Name: "regexp{pattern=\\x00\\x00\\x00$,count=16}", M: &l4regexp.MatchRegexp{Pattern: "\\x00\\x00\\x00$", Count: 16}},
+				{Name: "regexp{pattern=^L4[a-z0-9]{2}$ (braces eaten by the replacer)}", M: &l4regexp.MatchRegexp{Pattern: "^L4[a-z0-9]{2}$"}},
 				{Name: "regexp{pattern=(?s)^.*$,count=65535}", M: &l4regexp.MatchRegexp{Pattern: "(?s)^.*$", Count: 65535}},
 			})
 		},
@@ -583,7 +587,7 @@ func httpMutate(r Rand, msg []byte, _ bool) []byte {
 		out = cat([]byte(pick(r, "http.short", "G / H\r\n", "\n", "\r\n", "HTTP/1.1\n", " HTTP/1.1\r\n")), out)
 	case 5: // path long enough to fill the matching buffer
 		long := strings.Repeat("a", pick(r, "http.longpath", 2040, 4096, 8180, 9000, 20000))
-		out = cat([]byte("GET /"+long+" HTTP/1.1\r\nHost: example.com\r\n\r\n"))
+		out = cat([]byte("GET /" + long + " HTTP/1.1\r\nHost: example.com\r\n\r\n"))
 	case 6: // header line without colon
 		if eol > 0 {
 			out = cat(out[:eol+1], []byte("this is not a header\r\n"), out[eol+1:])
